@@ -466,7 +466,13 @@ func (w *writer) stringCode(str []rune) int {
 		return 0
 	}
 
-	hash := string(str)
+	// the key keeps every rune value: string(str) would turn surrogates into U+FFFD and make
+	// different strings share an entry
+	key := make([]byte, 0, 4*len(str))
+	for _, r := range str {
+		key = append(key, byte(r>>24), byte(r>>16), byte(r>>8), byte(r))
+	}
+	hash := string(key)
 	i, ok := w.stringhash[hash]
 	if !ok {
 		i = len(w.stringhash)
